@@ -244,7 +244,7 @@ fn hist_main(plan: &Value, slot: Arc<Mutex<Option<HistRun>>>) {
     let split = ju(plan, "split", 0) as usize;
     // sort-and-merge keeps every single occurrence in memory (by design): repeated observations
     // with huge occurrence counts are only fed to the bucketing strategies
-    let ws = !raw.iter().flatten().any(|v| ju(v, "n", 0) > 4096 || ja(v, "obs").iter().any(|o| ju(o, "n", 0) > 4096));
+    let ws = !raw.iter().flatten().any(|v| ju(v, "n", 0) > 200_000 || ja(v, "obs").iter().any(|o| ju(o, "n", 0) > 200_000));
     let run = match ty.as_str() {
         "u64" => run_typed::<u64>(raw.iter().map(|t| t.iter().map(|v| ju(v, "v", 0)).collect()).collect(), order, split, ws),
         "dur_ms" => run_typed::<Duration>(raw.iter().map(|t| t.iter().map(|v| Duration::from_nanos(ju(v, "v", 0))).collect()).collect(), order, split, ws),
@@ -258,7 +258,7 @@ fn hist_main(plan: &Value, slot: Arc<Mutex<Option<HistRun>>>) {
     let mut run = run;
     if run.done {
         use metrique_aggregation::histogram::{AggregationStrategy, SharedAggregationStrategy};
-        let ins: Vec<In> = inputs_of(plan).into_iter().flatten().filter(|i| i.n <= 4096).collect();
+        let ins: Vec<In> = inputs_of(plan).into_iter().flatten().filter(|i| i.n <= 200_000).collect();
         let cut = (ju(plan, "split", 0) as usize).min(ins.len());
         let obs = |v: Vec<Observation>| -> Vec<(f64, u64)> { v.into_iter().map(|o| match o { Observation::Repeated { total, occurrences } => (total, occurrences), Observation::Unsigned(u) => (u as f64, 1), Observation::Floating(f) => (f, 1), #[allow(unreachable_patterns)] _ => (f64::NAN, 0) }).collect() };
         macro_rules! reuse {
@@ -508,7 +508,9 @@ fn gen_x(rng: &mut Rng) -> (f64, &'static str) {
 pub fn gen_c11(rng: &mut Rng, tier: Tier) -> Value {
     let ty = *rng.pick(&["u64", "f64", "f64", "dur_ms", "dur_us", "dur_s", "rep", "rep", "multi", "multi"]);
     let nthreads = 1 + rng.below(4);
-    let max = if tier == Tier::Thorough { 24 } else { 12 };
+    // 2 %: a wide histogram - hundreds of observations, mostly distinct values (well over 100 non-empty buckets)
+    let wide = rng.chance(0.02);
+    let max = if wide { 400 } else if tier == Tier::Thorough { 24 } else { 12 };
     let mut classes: BTreeSet<&'static str> = BTreeSet::new();
     let mut threads: Vec<Vec<Value>> = vec![];
     // a small pool so that equal values recur (merging of equal values, several per bucket)
@@ -522,10 +524,10 @@ pub fn gen_c11(rng: &mut Rng, tier: Tier) -> Value {
         }
     }
     for _ in 0..nthreads {
-        let n = rng.below(max + 1);
+        let n = if wide { 120 + rng.below(max - 119) } else { rng.below(max + 1) };
         let mut t = vec![];
         for _ in 0..n {
-            let (x, class) = if rng.chance(0.5) { pool[rng.usize_below(pool.len())] } else { gen_x(rng) };
+            let (x, class) = if rng.chance(if wide { 0.05 } else { 0.5 }) { pool[rng.usize_below(pool.len())] } else { gen_x(rng) };
             classes.insert(class);
             t.push(match ty {
                 "u64" => json!({"v": x.round().min((1u64 << 43) as f64 - 1.0) as u64}),
@@ -533,7 +535,8 @@ pub fn gen_c11(rng: &mut Rng, tier: Tier) -> Value {
                 "dur_us" => json!({"v": (x * 1e3).round().min(8.7e18) as u64}),
                 "dur_s" => json!({"v": (x * 1e9).round().min(8.7e18) as u64}),
                 "rep" => {
-                    let n = *rng.pick(&[0u64, 1, 1, 2, 3, 7, 49, 1000, 1 << 20, 1 << 32]);
+                    // (runs of 65 536+ equal observations are stored one by one by sort-and-merge: rare, they cost milliseconds)
+                    let n = if rng.chance(0.004) { *rng.pick(&[65_536u64, 65_537, 100_000]) } else { *rng.pick(&[0u64, 1, 1, 2, 3, 7, 49, 1000, 1 << 20, 1 << 32]) };
                     json!({"t": x * n as f64, "n": n})
                 }
                 "multi" => {
@@ -545,7 +548,7 @@ pub fn gen_c11(rng: &mut Rng, tier: Tier) -> Value {
                         obs.push(match rng.below(4) {
                             0 => json!({"k":"u","v": y.round().min((1u64 << 43) as f64 - 1.0) as u64}),
                             1 => {
-                                let n = *rng.pick(&[0u64, 0, 1, 2, 49, 1000]);
+                                let n = if rng.chance(0.002) { 70_000 } else { *rng.pick(&[0u64, 0, 1, 2, 49, 1000]) };
                                 json!({"k":"r","t": y * n as f64, "n": n})
                             }
                             _ => json!({"k":"f","v": y}),
@@ -559,8 +562,8 @@ pub fn gen_c11(rng: &mut Rng, tier: Tier) -> Value {
         threads.push(t);
     }
     let total: u64 = threads.iter().map(|t| t.len() as u64).sum();
-    let sched = gen_sched(rng, &SchedOpts { est_choices: 10 + 2 * total, threads: nthreads, jump_max_ns: 0, stall_clock_max_ns: 0, max_steps: 20_000 });
-    json!({"sched": sched, "ty": ty, "threads": threads, "order_seed": rng.next_u64() >> 1, "split": rng.below(total + 1), "classes": classes.into_iter().collect::<Vec<_>>()})
+    let sched = gen_sched(rng, &SchedOpts { est_choices: 10 + 2 * total, threads: nthreads, jump_max_ns: 0, stall_clock_max_ns: 0, max_steps: if wide { 400_000 } else { 20_000 } });
+    json!({"sched": sched, "wide": wide, "ty": ty, "threads": threads, "order_seed": rng.next_u64() >> 1, "split": rng.below(total + 1), "classes": classes.into_iter().collect::<Vec<_>>()})
 }
 
 pub struct Histograms;
@@ -596,6 +599,9 @@ impl Scenario for Histograms {
             if let Some(c) = c.as_str() {
                 r.probe(&format!("value_{c}"), 1);
             }
+        }
+        if jb(plan, "wide", false) {
+            r.probe("wide_histogram_over_100_values", 1);
         }
         let ty = js(plan, "ty", "f64");
         r.probe(&format!("type_{ty}"), 1);
@@ -634,7 +640,7 @@ impl Scenario for Histograms {
         r
     }
     fn probes(&self) -> Vec<&'static str> {
-        vec!["concurrent_recorders_interleaved", "value_bucket_boundary", "value_sub_1_32", "value_power_of_two", "value_zero", "value_near_2_43", "value_adjacent_floats", "value_tiny_or_inexact", "type_multi", "type_u64", "type_f64", "type_dur_ms", "type_dur_us", "type_dur_s", "type_rep", "repeated_with_zero_occurrences"]
+        vec!["concurrent_recorders_interleaved", "value_bucket_boundary", "value_sub_1_32", "value_power_of_two", "value_zero", "value_near_2_43", "value_adjacent_floats", "value_tiny_or_inexact", "type_multi", "type_u64", "type_f64", "type_dur_ms", "type_dur_us", "type_dur_s", "type_rep", "repeated_with_zero_occurrences", "wide_histogram_over_100_values"]
     }
     fn components(&self) -> Value {
         json!({
